@@ -249,6 +249,7 @@ func c20(ctx *Ctx) (*Outcome, error) {
 	cases = append(cases, c20NameTakenCases()...)
 	cases = append(cases, c20NearNameCases()...)
 	cases = append(cases, c20EnumConstCases()...)
+	cases = append(cases, c20SharedIDCases()...)
 	n = len(cases)
 	results = make([]res, n)
 	stage.Parallel(n, func(i int) {
@@ -784,6 +785,56 @@ func c20EnumConstCases() []*c20case {
 			c.maps[f.Name] = m
 			c.flags = append(c.flags, "--schema-package", f.ID+"="+m.pkg, "--schema-output", f.ID+"="+m.out)
 		}
+		out = append(out, c)
+	}
+	return out
+}
+
+// c20SharedIDCases: two (three) schema FILES that carry the same $id - an id names a mapping, not a file - next to a
+// schema in another package that refers to one of them (whole file and one of its definitions): every file's root type
+// and every definition is still declared exactly once, in the file the shared id is mapped to (or the default output),
+// for every order of the arguments, with the referring schema before, between or after them.
+func c20SharedIDCases() []*c20case {
+	var out []*c20case
+	for v := 0; v < 6; v++ {
+		const id = "https://example.com/shared/billing"
+		mk := func(name string, k int) *sg.SchemaFile {
+			line := &sg.Schema{Types: []string{"object"}, Props: []sg.Prop{{Name: fmt.Sprintf("%sQty", name), S: &sg.Schema{Types: []string{"integer"}, Min: sg.Fp(float64(k))}}}, Required: []string{fmt.Sprintf("%sQty", name)}}
+			spare := &sg.Schema{Types: []string{"string"}, HasEnum: true, Enum: []any{name + "-a", name + "-b"}}
+			root := &sg.Schema{ID: id, Types: []string{"object"}, Defs: []sg.Prop{{Name: strings.ToUpper(name[:1]) + name[1:] + "Line", S: line}, {Name: strings.ToUpper(name[:1]) + name[1:] + "Spare", S: spare}},
+				Props: []sg.Prop{{Name: name + "No", S: &sg.Schema{Types: []string{"integer"}}}, {Name: "lines", S: &sg.Schema{Types: []string{"array"}, Items: &sg.Schema{Ref: "#/$defs/" + strings.ToUpper(name[:1]) + name[1:] + "Line", Target: line}}}}, Required: []string{name + "No"}}
+			if v%3 == 2 {
+				root.IDKey = "id"
+			}
+			return &sg.SchemaFile{Path: name + ".json", Root: root, ID: id, Name: name}
+		}
+		files := []*sg.SchemaFile{mk("customer", 1), mk("invoice", 2)}
+		if v >= 3 {
+			files = append(files, mk("receipt", 3))
+		}
+		inv := files[1]
+		order := &sg.Schema{ID: "https://example.com/shared/orders", Types: []string{"object"}, Props: []sg.Prop{{Name: "orderNo", S: &sg.Schema{Types: []string{"integer"}}},
+			{Name: "bill", S: &sg.Schema{Ref: "invoice.json", Target: inv.Root}}, {Name: "firstLine", S: &sg.Schema{Ref: "invoice.json#/$defs/InvoiceLine", Target: inv.Root.Defs[0].S}}}}
+		fo := &sg.SchemaFile{Path: "order.json", Root: order, ID: order.ID, Name: "order"}
+		c := &c20case{maps: map[string]c20map{}, sig: fmt.Sprintf("shared-id v=%d", v)}
+		switch v % 3 {
+		case 0:
+			c.fs = &sg.FileSet{Files: append(append([]*sg.SchemaFile{}, files...), fo)}
+		case 1:
+			c.fs = &sg.FileSet{Files: append([]*sg.SchemaFile{fo}, files...)}
+		default:
+			c.fs = &sg.FileSet{Files: append(append([]*sg.SchemaFile{files[0], fo}, files[1:]...))}
+		}
+		bm := c20map{pkg: c20Mod + "/billing", out: "billing/billing.go"}
+		c.flags = append(c.flags, "--schema-package", id+"="+bm.pkg, "--schema-output", id+"="+bm.out)
+		for _, f := range files {
+			m := bm
+			m.rootType = f.RootType()
+			c.maps[f.Name] = m
+		}
+		om := c20map{pkg: c20Mod + "/orders", out: "orders/orders.go", rootType: "OrderJson"}
+		c.maps["order"] = om
+		c.flags = append(c.flags, "--schema-package", order.ID+"="+om.pkg, "--schema-output", order.ID+"="+om.out)
 		out = append(out, c)
 	}
 	return out
